@@ -17,12 +17,14 @@ def make(family, rng, tier):
     if family == "preempt":
         scn = sysgen.gen_preempt(rng, tier, offgrid=rng.random() < 0.5)
         scn["oracles"] = ORACLES
+        scn["defer"] = ["C01.", "C02."]
         return scn
     if family == "gen":
         scn = sysgen.gen_generated(rng, rng.choice(ALGOS) if ALGOS else None, tier)
     else:
         scn = sysgen.gen(rng, rng.choice(ALGOS) if ALGOS else None, PROP, tier)
     scn["oracles"] = ORACLES
+    scn["defer"] = ["C01.", "C02."]
     return scn
 
 
